@@ -87,6 +87,11 @@ CLAIMED["C12"] = ("exploration",
    "Processes are found by a tag in argv (survives re-parenting and pid namespaces). Orphans re-parented to the VM's init and awaiting its reaping are outside the statement. The settle loop (<= 2 s, two forced GCs) accounts for asynchronous reaping and finalizers; the harness passes an *os.File as Builder.Stderr.",
    "property-based testing (rapid): generated process trees and stateful histories with resource-counter invariants", "§3 C12")
 
+CLAIMED["C11"] = ("exploration",
+   "Cancellation instants are generated values: context already cancelled, inside SyncFunc, inside the k-th Handler callback while the tracee is stopped at a syscall (allow or ban answer), at each named host point of Execve (tag-verif hooks), a sweep of 0..15 ms after the call biased to the first 600 us, around the program's own exit; crossed with three runners, five program kinds and 0..250 listed descriptors (which lengthen the launch). The run must return within 10 s with Time Limit Exceeded or the program's genuine verdict (end marker required), never Runner Error / Disallowed Syscall, nothing tagged may survive, the environment must answer Ping. Destroy is started 0..20 ms after or at a named point of an in-flight Execve/Open/Ping: the call returns, Destroy returns within 10 s, init and programs are gone.",
+   "Windows between two adjacent instructions of the tracer are hit only statistically by the sweep; pinned instants cover what callbacks and hook points can hold open. The 10 s bound is a correctness signal only together with its cause (program alive and nobody killing it).",
+   "property-based testing (rapid) over harness-owned cancellation schedules", "§3 C11")
+
 NOT_YET = {}
 
 def main():
